@@ -1769,6 +1769,18 @@ func (c *Client) roundTrip(r *Request) (resp *Response, err error) {
 		GetBody:       r.httpGetBody(),
 		Close:         r.close,
 	}
+	if lines := req.Header["Cookie"]; len(r.Cookies) > 0 && len(lines) > 1 {
+		// http.Request.AddCookie appends to the first Cookie field line and drops all
+		// the others (Header.Get + Header.Set): fold the lines the caller gave into one
+		// cookie-string first, so that none of them is lost.
+		kept := make([]string, 0, len(lines))
+		for _, line := range lines {
+			if line != "" {
+				kept = append(kept, line)
+			}
+		}
+		req.Header["Cookie"] = []string{strings.Join(kept, "; ")}
+	}
 	for _, cookie := range r.Cookies {
 		req.AddCookie(cookie)
 	}
